@@ -544,6 +544,10 @@ mod enc {
     thread_local! {
         /// evaluate the builder program "… then add one more key and remove it again"
         pub static ADD_REMOVE: std::cell::Cell<bool> = const { std::cell::Cell::new(false) };
+        /// encoding only: the extra key is the smallest and goes in first (else the largest, last)
+        pub static SMALL_FIRST: std::cell::Cell<bool> = const { std::cell::Cell::new(false) };
+        /// encoding only: page sizes in KiB (content-key pages, encoding-key pages)
+        pub static PAGE_KB: std::cell::Cell<(u16, u16)> = const { std::cell::Cell::new((1, 1)) };
     }
 
     type CModel = BTreeMap<[u8; 16], (u64, Vec<[u8; 16]>)>;
@@ -557,7 +561,19 @@ mod enc {
             if s == 0 || s == 0xFF || s == 0x5A {
                 ADD_REMOVE.with(|c| c.set(true));
                 eval_case(sh, s, &mut agg);
+                SMALL_FIRST.with(|c| c.set(true));
+                eval_case(sh, s, &mut agg);
+                SMALL_FIRST.with(|c| c.set(false));
                 ADD_REMOVE.with(|c| c.set(false));
+            }
+            // the two tables with pages of different sizes (the fills are those of 1 KiB pages, so
+            // the tables also get different page counts)
+            if s == 0xFF {
+                for kb in [(1u16, 4u16), (4, 1)] {
+                    PAGE_KB.with(|c| c.set(kb));
+                    eval_case(sh, s, &mut agg);
+                }
+                PAGE_KB.with(|c| c.set((1, 1)));
             }
         }
         agg
@@ -566,6 +582,8 @@ mod enc {
     pub fn eval_case(sh: &Shard, s: u8, agg: &mut Agg) {
         let ksp = KeySpace::new(16);
         let add_remove = ADD_REMOVE.with(std::cell::Cell::get);
+        let small_first = SMALL_FIRST.with(std::cell::Cell::get);
+        let page_kb = PAGE_KB.with(std::cell::Cell::get);
         let ccap = ckey_cap(sh.k);
         let fc = sh.fill.count(ccap);
         let fe = sh.fill.count(EKEY_CAP);
@@ -573,8 +591,8 @@ mod enc {
             structure: "encoding",
             group: format!("k={}", sh.k),
             group_of: vec![("encoding-ekey", "-".to_string())],
-            params: format!("fill={},head={:?},tail={:?},order={:?},S={:02x}{}", sh.fill.name(), sh.head, sh.tail, sh.order, s, if add_remove { ",then-add-and-remove-one-more" } else { "" }),
-            wit: json!({"section": "enc", "shard": sh, "s": s, "add_remove": add_remove}),
+            params: format!("fill={},head={:?},tail={:?},order={:?},S={:02x}{}{}", sh.fill.name(), sh.head, sh.tail, sh.order, s, if !add_remove { "" } else if small_first { ",smallest-key-added-first-and-removed-last" } else { ",then-add-and-remove-one-more" }, if page_kb == (1, 1) { String::new() } else { format!(",pages={}K/{}K", page_kb.0, page_kb.1) }),
+            wit: json!({"section": "enc", "shard": sh, "s": s, "add_remove": add_remove, "small_first": small_first, "page_kb": [page_kb.0, page_kb.1]}),
         };
         agg.cases += 1;
 
@@ -592,7 +610,17 @@ mod enc {
 
         // ---- build → serialize → parse
         let built = catch(|| {
-            let mut b = EncodingBuilder::new().with_page_sizes(1, 1);
+            let mut b = EncodingBuilder::new().with_page_sizes(page_kb.0, page_kb.1);
+            // (keys no window or filler key equals: the key space never produces 0x77 runs)
+            let (xc, xe) = if small_first { ([0u8, 0x77, 0x77, 0x77, 0x77, 0x77, 0x77, 0x77, 0x77, 0x77, 0x77, 0x77, 0x77, 0x77, 0x77, 0x77], [0u8, 0x78, 0x78, 0x78, 0x78, 0x78, 0x78, 0x78, 0x78, 0x78, 0x78, 0x78, 0x78, 0x78, 0x78, 0x78]) } else { ([0x77u8; 16], [0x78u8; 16]) };
+            let extra_ok = add_remove && !cmodel.contains_key(&xc) && !emodel.contains_key(&xe);
+            let add_extra = |b: &mut EncodingBuilder| {
+                b.add_ckey_entry(CKeyEntryData { content_key: ContentKey::from_bytes(xc), file_size: 5, encoding_keys: vec![EncodingKey::from_bytes(xe)] });
+                b.add_ekey_entry(EKeyEntryData { encoding_key: EncodingKey::from_bytes(xe), espec: ESPECS[0].to_string(), file_size: 5 });
+            };
+            if extra_ok && small_first {
+                add_extra(&mut b);
+            }
             for kid in apply_order(cpresent.clone(), sh.order) {
                 let (sz, eks) = &cmodel[&ck(&ksp, kid)];
                 b.add_ckey_entry(CKeyEntryData {
@@ -605,15 +633,12 @@ mod enc {
                 let (sp, sz) = &emodel[&ek(kid, 0)];
                 b.add_ekey_entry(EKeyEntryData { encoding_key: EncodingKey::from_bytes(ek(kid, 0)), espec: sp.clone(), file_size: *sz });
             }
-            if add_remove {
-                // keys no window or filler key equals (the key space never produces 0x77 runs)
-                let (xc, xe) = ([0x77u8; 16], [0x78u8; 16]);
-                if !cmodel.contains_key(&xc) && !emodel.contains_key(&xe) {
-                    b.add_ckey_entry(CKeyEntryData { content_key: ContentKey::from_bytes(xc), file_size: 5, encoding_keys: vec![EncodingKey::from_bytes(xe)] });
-                    b.add_ekey_entry(EKeyEntryData { encoding_key: EncodingKey::from_bytes(xe), espec: ESPECS[0].to_string(), file_size: 5 });
-                    b.remove_ckey_entry(&ContentKey::from_bytes(xc));
-                    b.remove_ekey_entry(&EncodingKey::from_bytes(xe));
+            if extra_ok {
+                if !small_first {
+                    add_extra(&mut b);
                 }
+                b.remove_ckey_entry(&ContentKey::from_bytes(xc));
+                b.remove_ekey_entry(&EncodingKey::from_bytes(xe));
             }
             b.build().and_then(|f| f.build())
         });
@@ -2723,6 +2748,8 @@ fn eval_witness(w: &Value) -> Option<Agg> {
     let case = &w["case"];
     let mut agg = Agg::default();
     enc::ADD_REMOVE.with(|c| c.set(case["add_remove"].as_bool() == Some(true)));
+    enc::SMALL_FIRST.with(|c| c.set(case["small_first"].as_bool() == Some(true)));
+    enc::PAGE_KB.with(|c| c.set((case["page_kb"][0].as_u64().unwrap_or(1) as u16, case["page_kb"][1].as_u64().unwrap_or(1) as u16)));
     match case["section"].as_str()? {
         "enc" => {
             let sh: enc::Shard = serde_json::from_value(case["shard"].clone()).ok()?;
